@@ -40,14 +40,21 @@ LEAN = {"module": "Pygom.Props.C08", "extra_modules": ["Pygom.Lemmas.Canary", "P
                      "Pygom.C08.two_instance_noninterference", "Pygom.C08.never_stale_pair", "Pygom.C08.never_stale_pair_source",
                      "Pygom.C08.shared_store_stale_counterexample", "Pygom.C08.per_instance_store_fresh",
                      "Pygom.C08Source.extracted_store_eq_source", "Pygom.C08Source.extracted_store_per_instance",
-                     "Pygom.C08Source.never_stale_pair_extracted"]}
+                     "Pygom.C08Source.never_stale_pair_extracted",
+                     "Pygom.C08.alias_method_eq_primary", "Pygom.C08.alias_direct_own_guard_eq_primary", "Pygom.C08.arun_lower",
+                     "Pygom.C08.never_stale_aliases", "Pygom.C08.never_stale_aliases_source", "Pygom.C08.alias_wrong_guard_counterexample",
+                     "Pygom.C08Source.extracted_aliases_complete", "Pygom.C08Source.extracted_aliases_modelled",
+                     "Pygom.C08Source.extracted_alias_impl_ok", "Pygom.C08Source.never_stale_extracted_aliases"]}
 BUDGET = {"quick": {"cases": 200, "cases2": 70, "maxlen": 12, "maxlen2": 9, "search": 450},
           "thorough": {"cases": 300, "cases2": 100, "maxlen": 40, "maxlen2": 24, "search": 600}}
 RULE = ("random initial model (1-3 states, 1-3 params, 0-3 events, every API route incl. incremental ones) + random history "
         "(length 3..12 quick / 3..40 thorough) of mutators (add_event Event/bare Transition, add_transition, add_birth_death, "
         "add_ode, derived parameter, new parameter/state then used, parameter values as list/ndarray/tuples/permuted tuples/"
-        "dict/partial dict/Symbol-keyed dict, rejected calls) interleaved with evaluations; all 12 evaluators (grad_grad included) observed "
-        "after every step on a replayed instance; the observation order is part of the case and so is, per observation, whether the "
+        "dict/partial dict/Symbol-keyed dict, rejected calls) interleaved with evaluations (30% of them through a SECONDARY ENTRY POINT: "
+        "ode_T, jacobian_T, grad_T, diff_jacobian_T, grad_jacobianT, total_transition); all 12 evaluators (grad_grad included) observed "
+        "after every step on a replayed instance, and each of the six aliases with probability 1/2 per round as a separate observation "
+        "with its own place in the order (so an alias is as often the first as the second to touch its evaluator's compiled object "
+        "after a mutation), compared with the freshly constructed model's value of the same quantity through the primary evaluator; the observation order is part of the case and so is, per observation, whether the "
         "freshly constructed REFERENCE model (kept alive, like every instance the case builds) evaluates the evaluator BEFORE the "
         "instance under test does (40% of the rounds never, 30% always, 30% per evaluator); every evaluator is also called at a SECOND "
         "point (integer state and time) in the argument form of the round (state as list / tuple / ndarray of float, of int, int32 "
@@ -68,7 +75,8 @@ ASSUMPTIONS = ["'fresh model' = SimulateOde built from the accumulated definitio
 TRUSTED = ["harness generator / replay logic", "Lean driver JSON codec", "pymodel.build (route replay)",
            "harness/translate_canary.py: that the extracted table (which mutators follow every definition-changing statement by "
            "trip(), HasNewTransition.states, add_func registrations, set_sp in the declaration setters, whether CompileCanary.trip() "
-           "rebinds self._states and __init__ calls trip()) says what the Python text does",
+           "rebinds self._states and __init__ calls trip(); for each public alias which evaluator's compiled object it returns and "
+           "whether through the evaluator's method or directly behind which flag) says what the Python text does",
            "not extracted (as modelled): CompileCanary.reset / __setattr__ write the flag of the one name into the dict the object holds"]
 
 
@@ -79,11 +87,12 @@ def pre(tier):
     r = TC.regenerate(bootstrap.REPO)
     broken = [{"obligation": "translator: %s" % x["what"], "detail": "BROKEN TIE - source outside the translated subset: " + x["detail"]}
               for x in r["refused"]]
-    n = len(TC.MUTATORS) + 4
+    n = len(TC.MUTATORS) + 4 + len(TC.ALIASES) + 1
     return {"broken": broken, "obligations": n, "discharged": n - len(broken),
             "coverage": {"generated_files_changed": ["lean/Pygom/Gen/CanaryCfg.lean"] if r["changed"] else [],
                          "canary_translator": {"trips": r["trips"], "watched": r["watched"], "registered": r["registered"],
                                                "declSetsSp": r["declSetsSp"], "tripRebinds": r["tripRebinds"], "initTrips": r["initTrips"],
+                                               "aliases": r["detail"].get("aliases"),
                                                "per_mutator": r["detail"], "refusals": r["refused"]}}}
 
 EVALS = ["ode", "jacobian", "grad", "diff_jacobian", "grad_jacobian", "grad_grad", "eventRateVector", "vMat", "pureOdeVector",
@@ -93,6 +102,13 @@ GENERATOR = {"ode": "get_ode_eqn", "jacobian": "get_jacobian_eqn", "grad": "get_
              "eventRateVector": "get_EventRateVector", "vMat": "get_StateChangeMatrix", "pureOdeVector": "get_pureOdeVector",
              "transitionJacobian": "get_TransitionJacobian", "transitionMean": "get_TransitionMean",
              "transitionVar": "get_TransitionVar"}
+# SECONDARY ENTRY POINTS: public aliases of the evaluators (the time-first twins handed to the integrators by integrate2 and the
+# loss classes, and total_transition = sum of the event rates).  An alias evaluates the SAME compiled object behind the SAME flag
+# as its target (Canary.Alias; `alias_method_eq_primary`, `never_stale_aliases`): each alias is a separate observation with its
+# own place in the evaluation order, compared with the freshly constructed model's value of the same quantity.
+ALIASES = {"ode_T": "ode", "jacobian_T": "jacobian", "grad_T": "grad", "diff_jacobian_T": "diff_jacobian",
+           "grad_jacobianT": "grad_jacobian", "total_transition": "eventRateVector"}
+TIME_FIRST = ("ode_T", "jacobian_T", "grad_T", "diff_jacobian_T", "grad_jacobianT")
 NEW_PARAMS = ["kap2", "eps", "phi", "omega", "nu", "xi"]
 NEW_STATES = ["Q", "U", "G", "K"]
 NEW_DERIVED = ["dd1", "dd2", "dd3"]
@@ -118,7 +134,10 @@ def gen_history(r, meta, maxlen, nmin=3):
     while len(ops) < n:
         coefs = params + derived
         if r.random() < p_eval:
-            ops.append({"op": "evaluate", "name": r.choice(EVALS)})
+            nm = r.choice(EVALS)
+            if r.random() < 0.3:
+                nm = r.choice(sorted(ALIASES))          # through a secondary entry point
+            ops.append({"op": "evaluate", "name": nm})
             continue
         k = gen.wchoice(r, [("add_event", 3), ("add_event_bare", 2), ("add_transition", 2), ("add_birth_death", 2), ("add_ode", 4),
                             ("set_params", 5), ("add_params", 2), ("add_states", 1), ("add_derived", 1), ("rejected", 0.5)])
@@ -211,7 +230,14 @@ def _point_and_probes(r, case, states, nrounds, pairs):
     case["t2"] = r.randint(0, 3)
     case["observe"], case["ref_first"], case["forms"] = [], [], []
     for _ in range(nrounds + 1):
-        order = r.sample(pairs, len(pairs))
+        # every evaluator, and each alias with probability 1/2 (of each instance), in ONE random order: an alias is as often the
+        # first as the second to touch its evaluator's compiled object after the last mutation
+        obs = list(pairs)
+        for a in sorted(ALIASES):
+            for i in sorted(set(p[0] for p in pairs if not isinstance(p, str))) or [None]:
+                if r.random() < 0.5:
+                    obs.append(a if i is None else [i, a])
+        order = r.sample(obs, len(obs))
         case["observe"].append(order)
         mode = gen.wchoice(r, [("after", 4), ("first", 3), ("mixed", 3)])
         case["ref_first"].append([mode == "first" or (mode == "mixed" and r.random() < 0.5) for _ in order])
@@ -323,7 +349,7 @@ def apply_set_params(model, op, pv):
 def call(model, name, x, t, keep=None):
     """('ok', float copy of the value) or ('err', ...).  `keep`: list that receives (the object returned, a copy of it)"""
     try:
-        raw = getattr(model, name)(x, t)
+        raw = getattr(model, name)(t, x) if name in TIME_FIRST else getattr(model, name)(x, t)
         val = np.array(raw, dtype=float, copy=True)
         if keep is not None and isinstance(raw, np.ndarray):
             keep.append((raw, raw.copy()))
@@ -388,6 +414,15 @@ def frozen(arg):
     return (type(arg).__name__, [repr(v) for v in arg])
 
 
+def alias_value(alias, primary):
+    """what the alias returns, from what the primary evaluator of the reference model returned: the `_T` twins return the same
+    object, `total_transition` is Python's `sum` over the event-rate vector"""
+    if primary[0] != "ok" or alias != "total_transition":
+        return primary
+    v = primary[1]
+    return ("ok", np.array(sum(v) if v.ndim >= 1 else v, dtype=float))
+
+
 class Fresh:
     """freshly constructed models (direct oracle), one per (definition version, parameter values); they stay alive for
     the whole case, like every other instance the case builds"""
@@ -408,6 +443,9 @@ class Fresh:
     def value(self, ver, pv, name, xvals, t, pt=1, force=False):
         """force: really CALL the reference instance now (another live instance evaluating the same evaluator at this
         moment of the history is part of the case), cached otherwise"""
+        if name in ALIASES:
+            # the same quantity on the reference model, through the PRIMARY evaluator
+            return alias_value(name, self.value(ver, pv, ALIASES[name], xvals, t, pt, force))
         m, vals = self.model(ver, pv)
         if force or (name, pt) not in vals:
             x = [float(xvals[str(s)]) for s in m.state_list]
@@ -416,15 +454,24 @@ class Fresh:
 
     def value_form(self, ver, pv, name, xvals, t, form, tform):
         """the reference called with the state / time in the given argument form (cached)"""
+        if name in ALIASES:
+            return alias_value(name, self.value_form(ver, pv, ALIASES[name], xvals, t, form, tform))
         m, vals = self.model(ver, pv)
         key = (name, 2, form, tform)
         if key not in vals:
             vals[key] = call(m, name, make_form(form, [xvals[str(s)] for s in m.state_list]), make_tform(tform, t))
         return vals[key]
 
+    def alias_itself(self, ver, pv, name, xvals, t):
+        """the alias METHOD called on the freshly constructed model (cached): does it work at all on a fresh model?"""
+        m, vals = self.model(ver, pv)
+        if ("alias", name) not in vals:
+            vals[("alias", name)] = call(m, name, [float(xvals[str(s)]) for s in m.state_list], float(t))
+        return vals[("alias", name)]
+
     def free_symbols(self, ver, pv, name):
         m, _ = self.model(ver, pv)
-        obj = getattr(m, GENERATOR[name])()
+        obj = getattr(m, GENERATOR[ALIASES.get(name, name)])()
         return set(str(s) for s in obj.free_symbols)
 
 
@@ -463,7 +510,7 @@ def run_case(case):
     # ---- pass 0: which mutators does the real code accept; definition versions; parameter values after each step
     m0 = [pymodel.build(sp, backend="lambda") for sp in specs0]
     alive += m0
-    absent = [e for e in EVALS if not hasattr(m0[0], e)]
+    absent = [e for e in EVALS + sorted(ALIASES) if not hasattr(m0[0], e)]
     if absent:
         # the modelled source registers these names with add_func (Canary.Ev): their absence is a broken correspondence
         return {"nontrivial": False, "tags": ["evaluator-missing:" + ",".join(absent)], "violations": [],
@@ -527,10 +574,12 @@ def run_case(case):
         tags.append("two:other_instance_evaluates_between_mutation_and_reevaluation")
     tags.append("len=%d" % n)
     tags.append("evals_in_history=%d" % sum(1 for o in hist if o["op"] == "evaluate"))
+    if any(o["op"] == "evaluate" and o["name"] in ALIASES for o in hist):
+        tags.append("alias_evaluated_in_history")
 
     seen_sig = set()
     internal = {"recompile_agree": 0, "recompile_differ": 0, "flags_agree": 0, "flags_differ": 0}
-    counts = {"ref_first": 0, "ref_after": 0, "second_point": 0, "kept": 0}
+    counts = {"ref_first": 0, "ref_after": 0, "second_point": 0, "kept": 0, "alias": 0}
 
     def op_kind(op):
         if op["op"] == "evaluate":
@@ -574,6 +623,14 @@ def run_case(case):
     def check(i, name, got, want, k, lean_step, where, suffix, got_x, got_pvals_all):
         """(a) direct oracle: `want` comes from a freshly constructed model; (b) the Lean state machine"""
         stale = False
+        if name in ALIASES and got[0] == "err" and want[0] == "ok" and k >= 1:
+            # an alias that raises although its evaluator works: does it raise on a FRESHLY CONSTRUCTED model as well?  Then the
+            # entry point is unusable in this tree whatever the history (tagged, not judged: C08 compares with a fresh model,
+            # and a fresh model raises the same)
+            fa = fresh[i].alias_itself(ver_after[k - 1][i], pv_after[k - 1][i], name, xvals, t)
+            if fa[0] == "err" and fa[1] == got[1]:
+                tags.append("alias-unusable-on-a-fresh-model:%s:%s" % (name, got[1]))
+                return None
         if got[0] == "err" and want[0] == "err":
             tags.append("both_raise:%s" % name)
         if not same(got, want):
@@ -630,6 +687,7 @@ def run_case(case):
         if not ok:
             mism.append({"what": "replay", "detail": "mutator accepted/rejected differently on replay at round %d" % k})
             break
+        last = hist[k - 1]
         order = [(0, e) if isinstance(e, str) else (int(e[0]), e[1]) for e in case["observe"][k]]
         reff = list((case.get("ref_first") or [[]] * (n + 1))[k]) if case.get("ref_first") else []
         reff += [False] * (len(order) - len(reff))
@@ -637,6 +695,8 @@ def run_case(case):
         if x2vals is not None:
             tags.append("form:" + form)
             tags.append("tform:" + tform)
+        if last["op"] != "evaluate" and any(e in ALIASES and (i, ALIASES[e]) in order[j + 1:] for j, (i, e) in enumerate(order)):
+            tags.append("probe:alias_first_to_touch_its_evaluator_after_a_mutation")
         lh = lean_history(hist[:k]) + [{"op": "evaluate", "name": e, "inst": i} for i, e in order]
         if two:
             lr = drv.call({"op": "canary2", "cfg": CFG, "model": specs0[0], "model_b": specs0[1], "history": lh})
@@ -672,9 +732,12 @@ def run_case(case):
                 counts["ref_first"] += 1
             else:
                 counts["ref_after"] += 1
-            before = getattr(model, e + "Compiled", None)
+            cname = ALIASES.get(e, e) + "Compiled"
+            before = getattr(model, cname, None)
             kp = []
             got = call(model, e, got_xs[i], t, kp)
+            if e in ALIASES:
+                counts["alias"] += 1
             kept += [("round %d observation #%d %s%s" % (k, j, e, " of instance %d" % i if two else ""), e) + z for z in kp]
             if want is None:
                 want = fresh[i].value(ver, pvk, e, xvals, t)
@@ -683,7 +746,7 @@ def run_case(case):
                                                                      ", reference evaluated first" if reff[j] else "")
             stale = check(i, e, got, want, k, st, where, (":2inst" if two else "") + (":ref-first" if reff[j] else ""), got_xs[i], pvals_all[i])
             # internals: recorded only
-            recompiled = getattr(model, e + "Compiled", None) is not before
+            recompiled = getattr(model, cname, None) is not before
             internal["recompile_agree" if recompiled == bool(st["recompiled"]) else "recompile_differ"] += 1
             try:
                 fl = {kk: bool(vv) for kk, vv in model._hasNewTransition._states.items()}
@@ -694,7 +757,7 @@ def run_case(case):
             # compares with a freshly constructed model: the reference is called with an equal container of the SAME form.
             # (A value that depends on the form alone - the reference called with a list of floats returns something else -
             # and a container written to by the call are side observations: TAGS, not violations of C08.)
-            if x2vals is not None and not stale:
+            if x2vals is not None and stale is False:
                 counts["second_point"] += 1
                 vals2 = [x2vals[str(s)] for s in model.state_list]
                 arg, targ = make_form(form, vals2), make_tform(tform, t2)
@@ -723,7 +786,7 @@ def run_case(case):
     for kk, vv in internal.items():
         if vv:
             tags.append("internal:" + kk)
-    for kk in ("ref_first", "second_point", "kept"):
+    for kk in ("ref_first", "second_point", "kept", "alias"):
         if counts[kk]:
             tags.append("probe:" + kk)
     nontrivial = bool(after_compile) and (not two or any(compiled_seen))
